@@ -128,7 +128,7 @@ func (r *R) Reset(ctx sdk.Context, line string) (sdk.Context, string) {
 		}
 		r.env.Fund(ctx, hx.Acc(i), cs)
 	}
-	return ctx, "ok " + r.state(ctx)
+	return ctx, "ok reward=- " + r.state(ctx)
 }
 
 func coinsStr(cs sdk.Coins, sep string) string {
@@ -276,9 +276,14 @@ func (r *R) Exec(ctx sdk.Context, line string) (sdk.Context, string) {
 		}
 		res := hx.OK
 		for i := 0; i < n; i++ {
-			if p, _ := hx.NoPanic(func() { farmmod.EndBlocker(ctx, r.env.Farm) }); p {
+			// the EndBlocker writes straight into the block state (no transaction cache); only a
+			// panicking one is discarded here, and the run of blocks stops (the real chain halts)
+			cctx, write := ctx.CacheContext()
+			if p, _ := hx.NoPanic(func() { farmmod.EndBlocker(cctx, r.env.Farm) }); p {
 				res = hx.Panic
+				break
 			}
+			write()
 			h := ctx.BlockHeight() + 1
 			ctx = hx.WithBlock(ctx, h, blockTime(h))
 		}
